@@ -610,7 +610,7 @@ fn contains_jsonb(left: &[u8], right: &[u8]) -> Result<bool, Error> {
                         }
                         let l_val = &left[l_val_offset..l_val_offset + l_jentry.length as usize];
                         if r_jentry.type_code != CONTAINER_TAG {
-                            if !l_val.eq(r_val) {
+                            if !scalar_eq(&l_jentry, l_val, r_val) {
                                 return Ok(false);
                             }
                         } else if !contains_jsonb(l_val, r_val)? {
@@ -649,8 +649,26 @@ fn contains_jsonb(left: &[u8], right: &[u8]) -> Result<bool, Error> {
             }
             Ok(true)
         }
-        _ => Ok(left.eq(right)),
+        _ => {
+            let l_jentry = JEntry::decode_jentry(read_u32(left, 4)?);
+            let r_jentry = JEntry::decode_jentry(read_u32(right, 4)?);
+            if l_jentry.type_code != r_jentry.type_code {
+                return Ok(false);
+            }
+            Ok(scalar_eq(&l_jentry, &left[8..], &right[8..]))
+        }
     }
+}
+
+// Check whether two scalar values of the same type are equal,
+// numbers are compared by value as they have more than one encoding.
+fn scalar_eq(jentry: &JEntry, left: &[u8], right: &[u8]) -> bool {
+    if jentry.type_code == NUMBER_TAG {
+        if let (Ok(left_num), Ok(right_num)) = (Number::decode(left), Number::decode(right)) {
+            return left_num == right_num;
+        }
+    }
+    left.eq(right)
 }
 
 fn get_jentry_by_name(
@@ -3148,7 +3166,7 @@ fn array_contains(arr: &[u8], arr_header: u32, val: &[u8], val_jentry: JEntry) -
         if jentry.type_code != val_jentry.type_code {
             continue;
         }
-        if val.eq(arr_val) {
+        if scalar_eq(&jentry, arr_val, val) {
             return true;
         }
     }
